@@ -21,6 +21,10 @@ pub fn set_read_step(d: Duration) {
     STEP.with(|s| s.set(d));
 }
 
+pub fn read_step() -> Duration {
+    STEP.with(|s| s.get())
+}
+
 /// Number of clock reads that reached the OS interface from inside API regions on this thread
 /// (i.e. clock reads that did not go through the guarded hook).
 pub fn direct_reads() -> u64 {
